@@ -86,6 +86,7 @@ type build struct {
 	mk     func() (protocol.Message, error)
 	fields []kind // overrides ctor.fields when this instance has another (valid) shape
 	own    bool
+	kclass string // optional class of the instance, appended to round-trip keys (e.g. "nil-arg")
 }
 
 type decodeFn struct {
@@ -310,6 +311,10 @@ func roundTrip(c *vlib.Check, ct *ctor, b build) (enc []byte, t uint, ok bool) {
 		return nil, 0, false
 	}
 	t = uint(m.Type())
+	kc := ""
+	if b.kclass != "" {
+		kc = "|" + b.kclass
+	}
 	for _, d := range ct.decoders {
 		rec := caseRec{Proto: ct.proto, Ctor: ct.name, Decoder: d.name, Instance: b.desc, MsgType: t, Hex: hex.EncodeToString(enc)}
 		class := fmt.Sprintf("rt|%s.%s|%s|%s", ct.proto, ct.name, d.name, b.desc)
@@ -318,7 +323,7 @@ func roundTrip(c *vlib.Check, ct *ctor, b build) (enc []byte, t uint, ok bool) {
 		case derr != nil:
 			c.Eval(class, "roundtrip-DECODE-ERROR")
 			rec.Detail = derr.Error()
-			report(fmt.Sprintf("roundtrip|%s.%s|decode-error", ct.proto, ct.name),
+			report(fmt.Sprintf("roundtrip|%s.%s|decode-error%s", ct.proto, ct.name, kc),
 				fmt.Sprintf("%s.%s(%s): own encoding %x is rejected by %s: %v", ct.proto, ct.name, b.desc, clip(enc), d.name, derr), rec)
 		case reflect.TypeOf(got) != reflect.TypeOf(m):
 			c.Eval(class, "roundtrip-WRONG-TYPE")
@@ -333,7 +338,7 @@ func roundTrip(c *vlib.Check, ct *ctor, b build) (enc []byte, t uint, ok bool) {
 			if d := diff(reflect.ValueOf(m), reflect.ValueOf(got), "msg", 0); d != "" {
 				c.Eval(class, "roundtrip-MISMATCH")
 				rec.Detail = d
-				report(fmt.Sprintf("roundtrip|%s.%s|fields", ct.proto, ct.name),
+				report(fmt.Sprintf("roundtrip|%s.%s|fields%s", ct.proto, ct.name, kc),
 					fmt.Sprintf("%s.%s(%s): decoded message differs from the built one at %s (encoding %x)", ct.proto, ct.name, b.desc, d, clip(enc)), rec)
 			} else {
 				c.Eval(class, "roundtrip-equal")
@@ -434,9 +439,6 @@ func pointPaths(k kind, fieldPath []int, n *space.Node) [][]int {
 
 func mutants(c *vlib.Check, ct *ctor, fields []kind, root *space.Node) []mutant {
 	var out []mutant
-	if !root.IsArray() || len(root.Items) != len(fields)+1 {
-		c.Internal("%s.%s: encoding has %d elements, table says %d fields: %x", ct.proto, ct.name, len(root.Items), len(fields), root.Encode())
-	}
 	arity := len(root.Items)
 	validArity := func(n int) bool {
 		for _, a := range ct.altArity {
@@ -527,6 +529,32 @@ var (
 	accepted = map[string]map[string]int{} // class -> proto.ctor -> n
 )
 
+var (
+	shapeMu    sync.Mutex
+	shapeNotes = map[string]string{}
+)
+
+// unexpectedShape records (once per constructor) that an encoding did not have the tabled arity.
+func unexpectedShape(c *vlib.Check, ct *ctor, b build, enc []byte, alt bool) {
+	c.Eval(fmt.Sprintf("shape-of-encoding|%s.%s|%s", ct.proto, ct.name, b.desc), "encoding-in-other-shape")
+	shapeMu.Lock()
+	defer shapeMu.Unlock()
+	k := ct.proto + "." + ct.name
+	how := "mutated with the field kinds of the message's other tabled shape"
+	if !alt {
+		how = "no tabled shape of that arity: shape mutations skipped for such instances"
+	}
+	if _, ok := shapeNotes[k]; !ok {
+		shapeNotes[k] = fmt.Sprintf("%s(%s) is encoded as %x, not in the %d-field shape tabled for this constructor; %s (equality of the round trip decides the verdict)",
+			k, b.desc, clip(enc), len(ct.fields), how)
+	}
+	if !alt {
+		skippedShapes = true
+	}
+}
+
+var skippedShapes bool
+
 func runMutants(c *vlib.Check, ct *ctor, b build, enc []byte, t uint) {
 	root, err := space.Parse(enc)
 	if err != nil {
@@ -535,6 +563,26 @@ func runMutants(c *vlib.Check, ct *ctor, b build, enc []byte, t uint) {
 	fields := ct.fields
 	if b.own {
 		fields = b.fields
+	}
+	if !root.IsArray() || len(root.Items) != len(fields)+1 {
+		// The library chose another wire shape for this instance than the table expects. Whether that
+		// loses information is decided by the round-trip comparison above, never by aborting. For the
+		// shape mutations use the field kinds of another constructor of the same message type whose
+		// arity matches (the message's other valid shape); otherwise skip the mutations of this instance.
+		fields = nil
+		found := false
+		if root.IsArray() {
+			for _, o := range ctors {
+				if o.proto == ct.proto && o.msg == ct.msg && len(o.fields)+1 == len(root.Items) {
+					fields, found = o.fields, true
+					break
+				}
+			}
+		}
+		unexpectedShape(c, ct, b, enc, found)
+		if !found {
+			return
+		}
 	}
 	for _, mu := range mutants(c, ct, fields, root) {
 		for _, d := range ct.decoders {
@@ -647,6 +695,19 @@ func main() {
 		}
 	})
 	flush(c)
+	{
+		var ks []string
+		for k := range shapeNotes {
+			ks = append(ks, k)
+		}
+		sort.Strings(ks)
+		for _, k := range ks {
+			c.Note(shapeNotes[k])
+		}
+		if skippedShapes {
+			c.NotExhaustive("some instances were encoded in a shape the table has no field kinds for; their shape mutations were skipped (see notes)")
+		}
+	}
 
 	// samples
 	for i, ct := range ctors {
